@@ -453,7 +453,8 @@ func solveAll(obls []*Obligation, cfg *runConfig) []*OblResult {
 					light = "" // goal itself is quantified and could not be skolemised
 				}
 			}
-			if cfg.dump != "" && strings.Contains(o.Name, cfg.dump) && light != "" {
+			if cfg.dump != "" && strings.Contains(o.Name, cfg.dump) {
+				if light == "" { light0 := o.smtTextS(nil, true); os.WriteFile("/tmp/govc-dump-"+sanitize(o.Name)+".lightq.smt2", []byte(light0), 0o644) }
 				os.WriteFile("/tmp/govc-dump-"+sanitize(o.Name)+".light.smt2", []byte(light), 0o644)
 			}
 			r := solve2(text, light, to, false, cfg.allSolve && !o.Cover, o.Name)
